@@ -1990,7 +1990,8 @@ class Class(Object):
         """
         try:
             return self.all_members["__init__"].parameters  # type: ignore[union-attr]
-        except KeyError:
+        except (KeyError, AliasResolutionError, CyclicAliasError):
+            # No `__init__` method, or one that is an alias which cannot be resolved.
             return Parameters()
 
     @property
